@@ -263,15 +263,24 @@ def run(ctx):
             return finish(ctx)
     ctx.count('truncated_messages', len(msgs))
 
-    # B. every byte position x 12 mutations
+    # B. every byte position x 12 mutations (for the per-type corpus: every byte of the body and of the signature field)
     nb = 0
+    corpus = typed_corpus() if si == 0 else []
+    ctx.count('typed_corpus_messages', len(corpus))
+    body_from = {}
+    for raw, start in corpus:
+        body_from[len(msgs)] = max(16, start - 12)
+        msgs = msgs + [raw]
     for mi, raw in enumerate(msgs):
         if len(raw) > 200:
             continue
         nb += 1
-        for pos in range(len(raw)):
+        for pos in range(body_from.get(mi, 0), len(raw)):
             orig = raw[pos]
             vals = [orig ^ (1 << b) for b in range(8)] + [0x00, 0xFF, (orig + 1) & 0xFF, (orig - 1) & 0xFF]
+            if mi in body_from:
+                # one-byte and low-order length bytes: values that read as small negative numbers when taken as signed
+                vals += [0x80, 0x81, 0xF0, 0xF4, 0xF8, 0xFA, 0xFC, 0xFD, 0xFE, 0x7F]
             for k, v in enumerate(vals):
                 if v == orig:
                     continue
@@ -465,6 +474,25 @@ def bus_forwarding(ctx, rng, per_message):
                                    'link to the bus', w, {'kind': 'busfwd'})
                         return
                     ctx.distinct('nontrivial_cases', ('busfwd', sig, mtype, bool(got)))
+
+
+def typed_corpus():
+    """Small valid messages that between them send every type code through its decoder, also as array element, dict
+    value and variant content, in both byte orders: single-byte damage to a length or a count is then tried on every
+    kind of length field there is (u32 lengths, the one-byte signature length, array byte counts)."""
+    bodies = [('g', ['ii']), ('ag', [['', 'ii', 'a{sv}']]), ('a(sg)', [[['k', 'i'], ['l', 'as']]]),
+              ('a{sg}', [[('k', 'ii'), ('l', 'u')]]), ('av', [[Variant('g', 'ai'), Variant('s', 'x')]]),
+              ('ao', [['/a', '/bc/d']]), ('as', [['a', 'bc', '']]), ('a{sv}', [[('k', Variant('ay', [1, 2, 3]))]]),
+              ('aay', [[[1, 2], [], [3]]]), ('a(yx)', [[[1, 2], [3, 4]]]), ('ad', [[1.5, -2.0]]), ('ab', [[True, False]]),
+              ('(s(ig)v)', [['x', [1, 'i'], Variant('(ii)', [1, 2])]]), ('nqiuxt', [-1, 2, -3, 4, -5, 6]),
+              ('aau', [[[1], [2, 3]]]), ('a{oa{sv}}', [[('/p', [('k', Variant('b', True))])]])]
+    out = []
+    for sig, body in bodies:
+        for little in (True, False):
+            raw = RM.build(RM.SIGNAL, 7, {'path': '/a', 'member': 'M', 'interface': 'a.b'}, sig, body, little)
+            blen = len(R.encode(sig, body, 0, little))
+            out.append((raw, len(raw) - blen))
+    return out
 
 
 def memory_samples(ctx, msgs, rng):
